@@ -8,6 +8,7 @@ import (
 	"crypto/ed25519"
 	"encoding/hex"
 	"fmt"
+	"strings"
 
 	"github.com/tonkeeper/tongo/boc"
 	"github.com/tonkeeper/tongo/tlb"
@@ -77,7 +78,21 @@ func stateInitTable(si tlb.StateInit) (*cells.Table, string, error) {
 	return cells.Project([]*boc.Cell{c}), hex.EncodeToString(h[:]), nil
 }
 
+// keyFromSeed: "seed" (32 bytes hex) or "seed:pub" - a private key value whose public half is the given 32 bytes
+// (ed25519.PrivateKey is seed || public key; the wallet takes key.Public() from it).
 func keyFromSeed(seedHex string) (ed25519.PrivateKey, error) {
+	if i := strings.IndexByte(seedHex, ':'); i >= 0 {
+		priv, err := keyFromSeed(seedHex[:i])
+		if err != nil {
+			return nil, err
+		}
+		pub, err := hex.DecodeString(seedHex[i+1:])
+		if err != nil || len(pub) != ed25519.PublicKeySize {
+			return nil, fmt.Errorf("bad public half in %q", seedHex)
+		}
+		copy(priv[ed25519.SeedSize:], pub)
+		return priv, nil
+	}
 	b, err := hex.DecodeString(seedHex)
 	if err != nil || len(b) != ed25519.SeedSize {
 		return nil, fmt.Errorf("bad key seed %q", seedHex)
